@@ -84,6 +84,15 @@ class C19(Prop):
         for _ in range(nrand):
             k = rng.choice([1, 2, 3, 4, 5, 6, 8, 12, 20])
             srcs.append(b"".join(rng.choice(LEXEMES) for _ in range(k)))
+        # multi-byte sequences are ordinary bytes wherever they stand: a byte order mark, NBSP, a line separator, lone bytes
+        MB = [b"\xef\xbb\xbf", b"\xc2\xa0", b"\xe2\x80\xa8", b"\xff", b"\xfe\xff", b"\xef\xbb", b"\xf0\x9f\x98\x80", b"\xc2\x85"]
+        for m in MB:
+            for k in range({"quick": 40, "thorough": 400, "search": 80}[tier]):
+                body = b"".join(rng.choice(LEXEMES) for _ in range(rng.choice([1, 2, 3, 5])))
+                srcs.append(m + body)
+                if k % 4 == 0:
+                    cut = rng.randrange(len(body) + 1)
+                    srcs.append(body[:cut] + m + body[cut:])
         lines = ["C19:%d\tlex\t%s" % (i, hx(s)) for i, s in enumerate(srcs)]
         # cursors: token.Position.Contains at the cursor of EVERY byte offset, for every token, on inputs with
         # multi-line tokens (text, strings and comments holding newlines) starting at a column > 0
@@ -306,6 +315,13 @@ class C01(Prop):
             parens, seps = self.layout(rng, n)
             kind = "xassign" if (i % 7 == 3) else "xexpr"
             lines.append("\t".join(["C01:%d" % i, kind, hx(t), hx(parens), hx(seps), data]))
+        # other spellings of the same literal: leading zeros do not change an integer or a float (decimal, never octal)
+        RAWLIT = [("010 + 1", "11"), ("08", "8"), ("09 * 2", "18"), ("007", "7"), ("012 == 12 ? \"same\" : \"different\"", "same"),
+                  ("00000000000000000000009 + 1", "10"), ("0", "0"), ("00", "0"), ("010.5 + 0.5", "11.0"), ("0777 - 700", "77"),
+                  ("[010, 011][1]", "11"), ("-010", "-10"), ("10 % 08", "2"), ("0x", None), ("1 + 019", "20")]
+        for j, (src, want) in enumerate(RAWLIT):
+            cons = ["nopanic"] + (["out:0:" + hx(want)] if want is not None else [])
+            lines.append(tree_case("C01:l%d" % j, [], [op_evalstr("{{ %s }}" % src)], cons))
         dist = collections.Counter()
         for t in trees:
             n = t.count("(bin") + t.count("(tern") + t.count("(neg") + t.count("(not") + t.count("(inc") + t.count("(dec") \
@@ -750,6 +766,11 @@ class C09(Prop):
                                 srcs.append("{{ i = 0 }}@for(%s; %s; %s)x%s%s@end" % (init, cond, post, brk, els))
                             else:
                                 srcs.append("@for(%s; %s; %s)x%s%s@end" % (init, cond, post, brk, els))
+        # an init clause that is present but is not an assignment (any expression is allowed there), with a post clause
+        for init in ["n", "n + 0", "0", "nn", '"s"', "av", "n++"]:
+            for post in ["n++", "n = n + 1", "n--", "", "i++"]:
+                for body in ["{{ n = n + 1 }}x", "x@break", "x{{ n = n + 1 }}@breakIf(n > 2)", "@continueIf(false){{ n = 5 }}y"]:
+                    srcs.append("{{ n = 0 }}@for(%s; n < 2; %s)%s@end|{{ n }}" % (init, post, body))
         # regression corpus (fixed: e92c1d0)
         srcs.append('{{ "ab".repeat(9223372036854775807) }}')
         srcs.append('{{ 1.decimal(".", 9223372036854775807) }}')
@@ -758,9 +779,13 @@ class C09(Prop):
         # data-binding faults
         bad = ["(chan)", "(func)", "(complex)", "(slice (int 1) (chan))", "(map (%s (func)))" % hx("k"), "(struct (F (chan)))",
                "(ptr (chan))", "(nilptr int)", "(ptr (ptr (int 3)))", "(struct (a (chan)) (B (int 1)))", "(tslice int (int 1) (int 2))",
-               "(tmap str (%s (str 61)))" % hx("k"), "(slice (nilptr str) (ptr (str 61)))", "(array2)"]
+               "(tmap str (%s (str 61)))" % hx("k"), "(slice (nilptr str) (ptr (str 61)))", "(array2)",
+               # pointer chains: a nil link at any depth is nil, never a crash
+               "(ptr (nilptr int))", "(ptr (ptr (nilptr str)))", "(struct (Name (str 416e6e)) (Email (ptr (nilptr str))))",
+               "(slice (ptr (nilptr int)) (int 2))", "(map (%s (ptr (nilptr int))))" % hx("k"), "(ptr (ptr (ptr (int 7))))",
+               "(ptr (struct (P (ptr (nilptr int))) (Q (nilptr int))))", "(nilchan)", "(nilfunc)", "(struct (Cb (nilfunc)) (N (int 1)))"]
         for i, b in enumerate(bad):
-            for src in ["{{ v }}", "x", "{{ v.F }}", "@each(e in v){{ e }}@end", "@dump(v)"][:4]:
+            for src in ["{{ v }}", "x", "{{ v.F }}", "@each(e in v){{ e }}@end", "{{ v.email ? 'yes' : 'no' }}{{ v.p }}{{ v[0] }}", "@dump(v)"][:5]:
                 lines.append("C09:d%d_%d\trender\t%s\t%s" % (i, len(lines), hx(src), hx("((%s %s))" % (hx("v"), b))))
         return lines, {"exhaustive": False, "distribution": distribution([s.encode() for s in srcs]),
                        "builtin_cases": sum(1 for s in srcs if s.startswith("{{ ") and "(" in s)}
@@ -1386,6 +1411,33 @@ class C06(Prop):
                 files = [("tpl/page.tw", "file", page), ("tpl/layouts/main.tw", "file", lay)]
                 ops = [op_new("tpl", ".tw"), op_string("page", TREE_DATA), op_evalstr(inlined, TREE_DATA)]
                 lines.append(tree_case("C06:l%d_%d" % (li, ci), files, ops, ["ok:0", "ok:1", "eq:1:2", "nopanic"]))
+        # several pages of one directory share a layout: each page sees the layout filled with ITS inserts only,
+        # whatever the other pages insert and in whatever order the files are loaded
+        for i in range({"quick": 60, "thorough": 600, "search": 120}[tier]):
+            lay = "<t>@reserve('title')</t><m>@reserve('content')</m>{{ name }}"
+            pnames = rng.sample(["about", "blank", "zeta", "index", "a/b", "m"], rng.choice([2, 3, 4]))
+            files = [("tpl/layouts/main.tw", "file", lay)]
+            ops = [op_new("tpl", ".tw")]
+            cons = ["ok:0", "nopanic"]
+            for pn in pnames:
+                subst = {}
+                page = "@use('~main')"
+                for nm in ("title", "content"):
+                    k = rng.random()
+                    if k < 0.4:
+                        pass                                   # this page does not fill the reserve
+                    elif k < 0.7:
+                        c = "%s-%s {{ n }}" % (pn, nm)
+                        page += "@insert('%s')%s@end" % (nm, c); subst[nm] = c
+                    else:
+                        c = "'%s:' + name" % pn
+                        page += "@insert('%s', %s)" % (nm, c); subst[nm] = "{{ " + c + " }}"
+                page += rng.choice(["", "<p>ignored text</p>"])
+                files.append(("tpl/%s.tw" % pn, "file", page))
+                inl = lay.replace("@reserve('title')", subst.get("title", "")).replace("@reserve('content')", subst.get("content", ""))
+                ops += [op_string(pn, TREE_DATA), op_evalstr(inl, TREE_DATA)]
+                cons.append("eq:%d:%d" % (len(ops) - 2, len(ops) - 1))
+            lines.append(tree_case("C06:m%d" % i, files, ops, cons))
         # the four error cases
         for i in range({"quick": 60, "thorough": 300, "search": 80}[tier]):
             lay = "<t>@reserve('title')</t>@reserve('body')"
@@ -1625,6 +1677,16 @@ class C13(Prop):
                     ln = line if kind == "parse" else 3
                     path = "$ROOT/tpl/components/c.tw"
                 lines.append(tree_case("C13:l%d" % i, files, [op_new("tpl", ".tw")], ["line:0:%d" % ln, "path:0:" + hx(path), "nopanic"]))
+        # an unknown component / a parse fault referenced from a COMPONENT file that a page uses: the file named is the
+        # component file (with the line in it), whatever the page is called and wherever it sorts
+        for i, pg in enumerate(["about", "index", "zz/last", "aa/first", "components/zcard", "m"] * {"quick": 2, "thorough": 20, "search": 4}[tier]):
+            pre = "".join(rng.choice(["text\n", "<div>\n", "{{-- c\n c --}}\n", ""]) for _ in range(rng.choice([0, 1, 2, 4])))
+            ln = pre.count("\n") + 1
+            ppre = "".join(rng.choice(["<h1>Page</h1>\n", "\n", "\n\n\n"]) for _ in range(rng.choice([0, 2, 5])))
+            comp = pre + "@component('components/badge')\n</div>\n"
+            files = [("tpl/%s.tw" % pg, "file", ppre + "@component('components/card')\n"), ("tpl/components/card.tw", "file", comp)]
+            lines.append(tree_case("C13:n%d" % i, files, [op_new("tpl", ".tw")],
+                                   ["line:0:%d" % ln, "path:0:" + hx("$ROOT/tpl/components/card.tw"), "msgsub:0:" + hx("badge"), "nopanic"]))
         return lines, {"exhaustive": False, "distribution": {"cases": n, "fault_kinds": len(self.FAULTS) + 4}}
 
 
@@ -1746,6 +1808,8 @@ class C16(Prop):
              ("tpl/reader.tw", "file", "<p>{{ title }}</p>"),
              ("tpl/shuf.tw", "file", "{{ items.shuffle().len() }}{{ [1, 2, 3, 4, 5, 6].shuffle().len() }}"),
              # fails inside a loop after earlier passes have produced output
+             # two different faults at the same file and line (what the error page shows depends on the message, not only on the place)
+             ("tpl/prof.tw", "file", "<h1>Profile</h1>\n<p>{{ who.name }}</p>\n"),
              ("tpl/badloop.tw", "file", "<ol>@each(i in items)<li>{{ i }}</li>{{ 1 / (2 - i) }}@end</ol>@for(j = 0; j < 3; j++)[{{ j }}{{ 1 % (1 - j) }}]@end")]
 
     def opset(self, shuffle=False):
@@ -1756,7 +1820,8 @@ class C16(Prop):
                 op_evalfile("tpl/components/card.tw", "((%s (int 1)))" % hx("v")),
                 op_string("setter"), op_string("reader"), op_response("reader"),
                 op_evalstr("{{ cnt = \"three\" }}{{ cnt }}"), op_evalstr("{{ cnt = 3 }}{{ cnt }}{{ title = 1 }}"),
-                op_string("badloop", TREE_DATA), op_evalstr("@each(n in [1, 2, \"x\"])<b>{{ n }}</b>@end")]
+                op_string("badloop", TREE_DATA), op_evalstr("@each(n in [1, 2, \"x\"])<b>{{ n }}</b>@end"),
+                op_response("prof", "((%s (int 7)))" % hx("who")), op_response("prof", "((%s (map (%s (int 7)))))" % (hx("who"), hx("id")))]
 
     def generate(self, rng, tier):
         ops = self.opset()
@@ -1987,7 +2052,9 @@ class C18(Prop):
             ext = rng.choice(exts)
             cands = [("a" + ext, "A"), ("b" + ext, "B{{ 1 }}"), ("sub/c" + ext, "C"), ("sub/deep/d" + ext, "D"), ("a" + ext + ".bak", "@if("),
                      ("notes" + ext + "x", "{{ ) }}"), ("x" + ext + "/inner" + ext, "I"), ("layouts/l" + ext, "L@reserve('r')"),
-                     ("readme.md", "@if("), ("sub/a" + ext, "SA"), ("b" + ext + ext, "BB"), ("sub/c" + ext + ext, "CC")]
+                     ("readme.md", "@if("), ("sub/a" + ext, "SA"), ("b" + ext + ext, "BB"), ("sub/c" + ext + ext, "CC"),
+                     # the content of a file is its bytes: a byte order mark, a trailing newline, CRLF are not trimmed
+                     ("bom" + ext, "\ufeff<p>{{ 1 + 2 }}</p>\n"), ("sub/bom2" + ext, "\ufeffB"), ("nl" + ext, "\n\nN\r\n \n"), ("sp" + ext, "  S  ")]
             chosen = rng.sample(cands, rng.choice([1, 2, 3, 4, 5]))
             files = [(real + "/" + p, "file", c) for p, c in chosen]
             if rng.random() < 0.3:
